@@ -59,6 +59,10 @@ def Mgr.inherit {ν : Type} (bases : List (Mgr ν)) : Mgr ν :=
 def regsFor {ν : Type} [DecidableEq ν] (regs : List (ν × H)) (e : ν) : List H :=
   (regs.filter (fun r => r.1 = e)).map (·.2)
 
+/-- `EventManager.fire_event(event_name, ...)`: the handlers that are called, in order, when none
+    of them raises -/
+def Mgr.fire {ν : Type} (m : Mgr ν) (e : ν) : List H := m e
+
 /-! ### removal: `oset.discard`, `EventManager.del_listener` -/
 
 /-- `oset.discard` (and `MutableSet.remove` when the key is present): unlink the key -/
@@ -80,12 +84,14 @@ inductive Op (ν : Type) where
   | add (e : ν) (h : H)
   | del (e : ν) (h : H)
   | clear (e : ν)
+  | fire (e : ν)     -- `fire_event(e, ...)`: calls the listeners, changes nothing
   deriving Repr
 
 def Mgr.applyOp {ν : Type} [DecidableEq ν] (m : Mgr ν) : Op ν → Mgr ν
   | .add e h => m.addListener e h
   | .del e h => m.delListener e h
   | .clear e => m.clear e
+  | .fire _ => m
 
 /-- a history of add_listener / del_listener calls on a manager -/
 def Mgr.applyAll {ν : Type} [DecidableEq ν] (m : Mgr ν) (ops : List (Op ν)) : Mgr ν := ops.foldl Mgr.applyOp m
@@ -98,9 +104,23 @@ def netRegs {ν : Type} [DecidableEq ν] (e : ν) : List H → List (Op ν) → 
   | acc, .add e' h :: ops => netRegs e (if e' = e then acc ++ [h] else acc) ops
   | acc, .del e' h :: ops => netRegs e (if e' = e then acc.filter (fun x => x != h) else acc) ops
   | acc, .clear e' :: ops => netRegs e (if e' = e then [] else acc) ops
+  | acc, .fire _ :: ops => netRegs e acc ops
 
-/-- `EventManager.fire_event(event_name, ...)`: the handlers that are called, in order, when none
-    of them raises -/
-def Mgr.fire {ν : Type} (m : Mgr ν) (e : ν) : List H := m e
+/-- a history that interleaves firings with registrations and removals: the listeners each firing
+    calls, in order of the firings -/
+def Mgr.runHistory {ν : Type} [DecidableEq ν] (m : Mgr ν) : List (Op ν) → List (List H)
+  | [] => []
+  | .fire e :: ops => m.fire e :: Mgr.runHistory m ops
+  | .add e h :: ops => Mgr.runHistory (m.addListener e h) ops
+  | .del e h :: ops => Mgr.runHistory (m.delListener e h) ops
+  | .clear e :: ops => Mgr.runHistory (m.clear e) ops
+
+/-- specification: every firing sees the first occurrences of the net registrations made before it
+    (`done` = the history so far) -/
+def specFires {ν : Type} [DecidableEq ν] (done : List (Op ν)) : List (Op ν) → List (List H)
+  | [] => []
+  | .fire e :: ops => firstOcc (netRegs e [] done) :: specFires (done ++ [.fire e]) ops
+  | op :: ops => specFires (done ++ [op]) ops
+
 
 end SpyneModel.Events
